@@ -91,11 +91,18 @@ CHECKS.update({
         'technique': TRACE_TECH, 'engine': 'trace-harness'},
 })
 
+CHECKS.update({
+    'C18': {
+        'text': 'Theorems c18_flush (a flush stamps exactly the pending activities with the current transaction and the newest version of object and target, stored activities untouched), c18_stable (whatever happens in any later flush of any later transaction, a stored activity is never changed), c18_points_as_of (the pointer is the greatest id not newer than the current transaction), c18_no_spurious, c18_restamp_counterexample (the repaired defect F-ACT formally); c02_holds for "old activities create no transaction record". Tied to plugins/activity.py by session programs in which activities stay referenced across later transactions; the activity table is dumped after every step and judged by C18.Holds with the version rows visible when the flush started.',
+        'note': TRACE_NOTE + ' The activity model is a small separate state machine; generic_relationship and JSON data columns of the plugin are not modelled. Activities are added after their object\'s changes were flushed (as the property says).',
+        'technique': TRACE_TECH, 'engine': 'trace-harness'},
+})
+
 NOT_APPLICABLE = {}
 
 ENGINES = [
     {'name': 'lean-model', 'path': 'lean/', 'serves_properties': sorted(CHECKS), 'kind_free_text': 'Lake project Continuum: model (core Lean), Spec (decidable Holds predicates), Props (theorems), Driver.lean (line protocol)'},
-    {'name': 'trace-harness', 'path': 'harness/props/traces.py', 'serves_properties': ['C01', 'C02', 'C03', 'C11', 'C13', 'C17'], 'kind_free_text': 'runs generated session programs on the real code, records the listener-level event trace and database/manager dumps, replays through the Lean model, evaluates Holds on real segments'},
+    {'name': 'trace-harness', 'path': 'harness/props/traces.py', 'serves_properties': ['C01', 'C02', 'C03', 'C10', 'C11', 'C13', 'C17', 'C18'], 'kind_free_text': 'runs generated session programs on the real code, records the listener-level event trace and database/manager dumps, replays through the Lean model, evaluates Holds on real segments'},
     {'name': 'config-harness', 'path': 'harness/props/c12.py', 'serves_properties': ['C12'], 'kind_free_text': 'samples configurations, serialises the real MetaData, compares with the Lean derivation, generates kernel-checked Lean obligations'},
     {'name': 'rel-harness', 'path': 'harness/props/c04.py', 'serves_properties': ['C04'], 'kind_free_text': 'fills parent/child/association version tables or runs histories, reads every reflected relationship, compares with the Lean criteria and a snapshot reconstruction'},
     {'name': 'fault-harness', 'path': 'harness/props/c06.py', 'serves_properties': ['C06'], 'kind_free_text': 'statement-boundary fault injection, rollback variants, savepoint placements, kill runs in a child process'},
